@@ -59,6 +59,7 @@ structure St where
   linit : List Bool                            -- NLL lists initialised?
   wher  : List (Option Nat)                    -- NNODES: which list the node is in (ghost)
   leaked : Nat := 0                            -- blocks the array-list code dropped without releasing (allocator balance)
+  dbg : Bool := false                          -- `mode debug`: the library is compiled with -DDEBUG_BUILD
 
 def St.init : St :=
   { als := List.replicate NLISTS none, heap := LinkedList.emptyHeap,
@@ -101,6 +102,37 @@ def dumpLines (k : Nat) (l : ArrayList.AL) : List String :=
   (List.range l.length).map (fun i => s!"P e {i} {valShort (ArrayList.getAt l i)}") ++
   [s!"P front {valShort (ArrayList.front l)}", s!"P back {valShort (ArrayList.back l)}"]
 
+/-! ### -DDEBUG_BUILD flavour of the library
+
+With DEBUG_BUILD the array list poisons unused storage with `AWS_ARRAY_LIST_DEBUG_FILL` (0xDD): the whole block in
+`init_dynamic` and `clear`, the grown part in `ensure_capacity`, the vacated tail in `pop_front_n`.  The theorems
+are about the NDEBUG code; this overlay (used only after `mode debug`) reproduces the fills so that the
+debug-flavour harness can be compared byte for byte, and pre/post-condition aborts become `skip`s. -/
+
+def DD : ArrayList.Byte := some 0xDD
+
+def fillRange (d : ArrayList.Region) (off n : Nat) : ArrayList.Region :=
+  d.take off ++ List.replicate (min n (d.length - off)) DD ++ d.drop (off + n)
+
+/-- `ensure_capacity` with the DEBUG fill of the new part (the fill sits inside `if (list->data)`: a list whose
+`data` is NULL gets a fresh, unfilled block); on failure the list is returned unchanged -/
+def dbgGrow (l : ArrayList.AL) (index : Nat) : ArrayList.AL :=
+  match ArrayList.ensureCapacity l index with
+  | .ok l' =>
+    if l.data.length = 0 then l'
+    else { l' with data := l.data ++ List.replicate (l'.data.length - l.data.length) DD }
+  | .error _ => l
+
+def dbgClear (l : ArrayList.AL) : ArrayList.AL :=
+  if l.data.length ≠ 0 then { l with data := List.replicate l.data.length DD, length := 0 } else l
+
+def dbgPopFrontN (l : ArrayList.AL) (n : Nat) : ArrayList.AL :=
+  if n ≥ l.length then dbgClear l
+  else if n > 0 then
+    let r := (ArrayList.popFrontN l n).1
+    { r with data := fillRange r.data ((l.length - n) * l.itemSize) (n * l.itemSize) }
+  else l
+
 /-- an op on one list that yields (new list, rc) -/
 def mut1 (s : St) (k : Nat) (r : ArrayList.AL × ArrayList.Rc) : St × List String :=
   (putAL s k (some r.1), rcLine r.2 :: stateLines k r.1)
@@ -115,7 +147,9 @@ def alStep (s : St) (t : List String) : St × List String :=
     | some k, some n, some isz =>
       if isz = 0 ∨ (n * isz ≤ SIZE_MAX ∧ n * isz > LIMIT) then (s, ["P skip"]) else
       match ArrayList.initDynamic n isz with
-      | .ok l => (putAL s k (some l), "P rc=OK" :: stateLines k l)
+      | .ok l =>
+        let l := if s.dbg then { l with data := List.replicate l.data.length DD } else l
+        (putAL s k (some l), "P rc=OK" :: stateLines k l)
       | .error e => (putAL s k none, [s!"P rc={errName e}"])
     | _, _, _ => (s, ["bad-op"])
   | ["init_static", ls, n, isz] =>
@@ -161,26 +195,31 @@ def alStep (s : St) (t : List String) : St × List String :=
         | "push_back", [v] =>
           match parseVal? l.itemSize v with
           | none => (s, ["bad-op"])
-          | some v => if huge l l.length then (s, ["P skip"]) else mut1 s k (ArrayList.pushBack l v)
+          | some v => if huge l l.length then (s, ["P skip"]) else
+            mut1 s k (ArrayList.pushBack (if s.dbg then dbgGrow l l.length else l) v)
         | "push_front", [v] =>
           match parseVal? l.itemSize v with
           | none => (s, ["bad-op"])
-          | some v => if huge l l.length then (s, ["P skip"]) else mut1 s k (ArrayList.pushFront l v)
+          | some v => if huge l l.length then (s, ["P skip"]) else
+            mut1 s k (ArrayList.pushFront (if s.dbg then dbgGrow l l.length else l) v)
         | "set", [i, v] =>
           match parseSize? i, parseVal? l.itemSize v with
-          | some i, some v => if huge l i then (s, ["P skip"]) else mut1 s k (ArrayList.setAt l v i)
+          | some i, some v => if huge l i then (s, ["P skip"]) else
+            mut1 s k (ArrayList.setAt (if s.dbg then dbgGrow l i else l) v i)
           | _, _ => (s, ["bad-op"])
         | "pop_back", [] => mut1 s k (ArrayList.popBack l)
-        | "pop_front", [] => mut1 s k (ArrayList.popFront l)
+        | "pop_front", [] =>
+          if s.dbg ∧ l.length > 0 then mut1 s k (dbgPopFrontN l 1, .ok) else mut1 s k (ArrayList.popFront l)
         | "pop_front_n", [n] =>
           match parseSize? n with
-          | some n => mut1 s k (ArrayList.popFrontN l n)
+          | some n => if s.dbg then mut1 s k (dbgPopFrontN l n, .ok) else mut1 s k (ArrayList.popFrontN l n)
           | none => (s, ["bad-op"])
         | "erase", [i] =>
           match parseSize? i with
-          | some i => mut1 s k (ArrayList.erase l i)
+          | some i =>
+            if s.dbg ∧ i = 0 ∧ l.length > 0 then mut1 s k (dbgPopFrontN l 1, .ok) else mut1 s k (ArrayList.erase l i)
           | none => (s, ["bad-op"])
-        | "clear", [] => mut1 s k (ArrayList.clear l, .ok)
+        | "clear", [] => mut1 s k (if s.dbg then dbgClear l else ArrayList.clear l, .ok)
         | "shrink", [] =>
           mut1 { s with leaked := s.leaked + (if ArrayList.shrinkLeaks l then 1 else 0) } k (ArrayList.shrinkToFit l)
         | "sort", [] => mut1 s k (ArrayList.sort l, .ok)
@@ -194,7 +233,7 @@ def alStep (s : St) (t : List String) : St × List String :=
           | some i =>
             if huge l i then (s, ["P skip"]) else
             match ArrayList.ensureCapacity l i with
-            | .ok l' => mut1 s k (l', .ok)
+            | .ok l' => mut1 s k (if s.dbg then dbgGrow l i else l', .ok)
             | .error e => mut1 s k (l, .err e)
           | none => (s, ["bad-op"])
         | "calc", [i] =>
@@ -215,7 +254,7 @@ def alStep (s : St) (t : List String) : St × List String :=
           match parseSize? flen with
           | none => (s, ["bad-op"])
           | some flen =>
-            if flen < 2^32 ∨ l.data.length = 0 then (s, ["P skip"]) else
+            if flen < 2^32 ∨ l.data.length = 0 ∨ s.dbg then (s, ["P skip"]) else
             let lf := { l with length := flen }
             let fin (r : ArrayList.AL × ArrayList.Rc) : St × List String :=
               let l' := { r.1 with length := l.length }
@@ -340,6 +379,7 @@ def llStep (s : St) (t : List String) : St × List String :=
     else if op = "swap_nodes" then
       match parseNode? ls, parseNode? ns with
       | some a, some b =>
+        if a = b ∧ s.dbg ∧ (whereOf s a).isNone then (s, ["P skip"]) else
         if a = b then applyHeap s (LinkedList.swapNodes s.heap a b) id ["P ok"] else
         match whereOf s a, whereOf s b with
         | some ja, some jb =>
@@ -382,7 +422,7 @@ def llStep (s : St) (t : List String) : St × List String :=
       match parseList? x with
       | none => (s, ["bad-op"])
       | some j =>
-        if !isInit s j then (s, ["P skip"]) else
+        if !isInit s j ∨ (s.dbg ∧ op ≠ "empty" ∧ countIn s j = 0) then (s, ["P skip"]) else
         if op = "empty" then (s, [s!"P empty {if LinkedList.empty s.heap (llOf j) then 1 else 0}"])
         else if op = "front" then (s, [s!"P front {nameOf (LinkedList.begin_ s.heap (llOf j))}"])
         else (s, [s!"P back {nameOf (LinkedList.rbegin s.heap (llOf j))}"])
@@ -390,9 +430,14 @@ def llStep (s : St) (t : List String) : St × List String :=
       match parseRef? x with
       | none => (s, ["bad-op"])
       | some r =>
+        let edge : Bool := match r with
+          | .tl _ => op == "next"
+          | .hd _ => op == "prev"
+          | .node _ => false
         match refId s r with
         | none => (s, ["P skip"])
         | some (id, _) =>
+          if s.dbg ∧ edge then (s, ["P skip"]) else
           if op = "next" then (s, [s!"P next {nameOf (LinkedList.next s.heap id)}"])
           else (s, [s!"P prev {nameOf (LinkedList.prev s.heap id)}"])
     else (s, ["bad-op"])
@@ -402,6 +447,7 @@ def step (s : St) (t : List String) : St × List String :=
   match t with
   | "al" :: rest => alStep s rest
   | "ll" :: rest => llStep s rest
+  | ["mode", "debug"] => ({ s with dbg := true }, ["P mode debug"])
   | _ => (s, ["bad-op"])
 
 def component : Component := { σ := St, init := St.init, step := step }
